@@ -836,6 +836,13 @@ def _u10_rebuilt_list(F, r, b, defs, dom, loops, lens):
                 continue
             new_l = fr[0]
             old_l = [l for l in recv if l != new_l][0]
+            # the count may be taken from a copy of the walked list made in this very round (`let unresolved = pending.clone()`)
+            cds = defs.whole_defs(old_l)
+            if len(cds) == 1 and cds[0][2] == "call" and cds[0][0] in nodes and hir.last(mir.callee_def(cds[0][3]) or "") in ("clone", "to_vec", "to_owned") \
+                    and cds[0][3]["args"] and mir.is_place_op(cds[0][3]["args"][0]) and base(cds[0][3]["args"][0]) != old_l:
+                src_l = base(cds[0][3]["args"][0])
+                if any(d[0] in nodes for d in defs.whole_defs(src_l)):      # .. of the list that is re-assigned each round
+                    old_l = src_l
             walked = any(hir.last(mir.callee_def(t) or "") in ("into_iter", "iter") and t["args"] and mir.is_place_op(t["args"][0]) and base(t["args"][0]) == old_l and ib in nodes
                          and any(ib in dom[i_] for i_ in imports) for ib, t in mir.calls(b))
             handed_on = any(d[2] == "assign" and d[0] in nodes and d[3]["rv"]["k"] == "use" and mir.is_place_op(d[3]["rv"]["o"]) and base(d[3]["rv"]["o"]) == new_l for d in defs.whole_defs(old_l))
